@@ -47,6 +47,8 @@ mod unused_while;
 pub use append_text_comment::*;
 pub use call_parens::*;
 pub use compute_expression::*;
+#[cfg(feature = "verif")]
+pub(crate) use compute_expression::verif_hooks as verif_compute_expression;
 pub use configuration_error::RuleConfigurationError;
 pub use convert_index_to_field::*;
 pub use convert_luau_number::*;
